@@ -5,6 +5,7 @@ import (
 	"database/sql"
 	"strconv"
 	"strings"
+	"time"
 
 	"github.com/jdillenkofer/pithos/internal/checksumutils"
 	"github.com/jdillenkofer/pithos/internal/ptrutils"
@@ -375,6 +376,9 @@ func (sms *sqlMetadataStore) CompleteMultipartUpload(ctx context.Context, tx *sq
 	objectEntity.ChecksumSHA1 = calculatedChecksums.ChecksumSHA1
 	objectEntity.ChecksumSHA256 = calculatedChecksums.ChecksumSHA256
 	objectEntity.ChecksumType = ptrutils.ToPtr(checksumType)
+	// The reused upload row becomes the object now: Last-Modified is the time
+	// of completion, not the time the upload was initiated.
+	objectEntity.UpdatedAt = time.Time{}
 
 	err = sms.objectRepository.SaveObject(ctx, tx, objectEntity)
 	if err != nil {
